@@ -4,6 +4,7 @@ package oracle
 
 import (
 	"fmt"
+	"os"
 	"strings"
 
 	"verif.local/lab/cases"
@@ -265,6 +266,9 @@ func C02(sp *spec.Spec, ex *rt.Exchange) *Verdict {
 		Validate(sp, m.Payload.Type, m.Payload.Val, ex.Case.Sent, "", &viol, &und, 0)
 		if len(viol) > 0 || len(und) > 0 {
 			v.Inconclusive = "case generator produced a payload that does not satisfy the design"
+			if os.Getenv("VERIF_DEBUG") != "" {
+				fmt.Fprintf(os.Stderr, "INVALID-BASE %s.%s %v %v sent=%s\n", sv.Name, m.Name, viol, und, vtree.Show(ex.Case.Sent))
+			}
 			return v
 		}
 	}
